@@ -960,6 +960,15 @@ def process_fn(fn, spec, handle, stats, canary):
     for (fname, old, new) in spec.rewrites:
         if fname != name:
             continue
+        if old.startswith("re:"):
+            # regex form (groups allowed in the replacement): tolerant to renamed locals
+            rx = re.compile(old[3:].strip())
+            ms = list(rx.finditer(body))
+            if len(ms) != 1:
+                raise ExtractError("declared rewrite on %s no longer matches exactly once: %s" % (name, old))
+            body = body[: ms[0].start()] + ms[0].expand(new) + body[ms[0].end():]
+            stats["declared_rewrites"] += 1
+            continue
         rx = re.compile(ws_insensitive_regex(old))
         ms = list(rx.finditer(body))
         if len(ms) != 1:
